@@ -124,6 +124,10 @@ pub fn base_versions(seed: u64, n: usize) -> Vec<String> {
 pub fn limit_strings() -> Vec<String> {
     let mut out = vec![];
     let nums = gs::limit_numbers();
+    for k in [30usize, 63, 64, 65, 66, 100, 120] {
+        out.push(format!("1.2.3-{}", vec!["0"; k].join(".")));
+        out.push(format!("1.2.3+{}", vec!["x"; k].join(".")));
+    }
     for n in &nums {
         for pos in 0..3 {
             let mut c = vec!["1".to_string(), "2".to_string(), "3".to_string()];
@@ -169,6 +173,11 @@ pub fn limit_strings() -> Vec<String> {
         }
         out.push(format!("{}1.{}2.{}3", "0".repeat(target / 3), "0".repeat(target / 3), "0".repeat(target / 3)));
         out.push("é".repeat(target / 2));
+        // many short identifiers: the count, not the length, is large
+        let k = target.saturating_sub(6) / 2;
+        out.push(format!("1.2.3-{}", vec!["a"; k].join(".")));
+        out.push(format!("1.2.3+{}", vec!["0"; k].join(".")));
+        out.push(format!("1.2.3-{}+{}", vec!["7"; k / 2].join("."), vec!["b"; k / 2].join(".")));
         out.push(" ".repeat(target));
         out.push(format!("{}1.2.3", " ".repeat(target.saturating_sub(5))));
     }
